@@ -36,8 +36,16 @@ NEAR = [{"i": 0}, {"i": 1}, {"f": "1.0"}, {"b": True}, {"f": "0.0"}, {"b": False
 MIXED_KEYS = [{"i": 1}, {"s": "k"}, {"y": "k"}, {"t": [{"i": 1}, {"s": "a"}]}, {"n": 0}, {"i": 7}, {"s": "zz"}]
 
 
+CALLABLE_ARGS = ["Json.Codec.encode", "Tsv.Codec.encode", "a.Codec.encode", "b.Codec.encode", "a.conv", "b.conv", "len",
+                 "abs", "str.upper", "str.lower", "[].append", "[1].append", "math.sqrt", "math.floor",
+                 "partial(a.conv,1)", "partial(b.conv,1)", "partial(a.conv,y=2)"]
+
+
 def gen_value(rng, depth=0):
     r = rng.random()
+    if depth == 0 and r > 0.94:
+        # a CALLABLE passed as an argument (the generated function returns its description)
+        return {"c": rng.choice(CALLABLE_ARGS)}
     if depth == 0 and r < 0.12:
         # dict / set with keys of mixed kinds (int, str, bytes, tuple, None): the hasher cannot sort them and falls
         # back to ordering by the joblib digest of each key, which must not depend on PYTHONHASHSEED
@@ -357,6 +365,12 @@ def gen_sig_scenario(rng, params, sid, quick=True):
     sc["events"] = events
     if multi:
         sc["hashseeds"] = rng.sample(["0", "1", "2", "random", "4242"], 5)
+        if kind == "def" and rng.random() < 0.6:
+            # the function is defined in a notebook cell and the kernel is restarted under another pid
+            sc["versions"]["0"]["kind"] = "ipycell"
+            sc["pids"] = [str(rng.choice([7, 42, 123, 9876, 12345, 123456, 654321, 1234567, 87654321])) for _ in range(6)]
+            sc["picklable"] = False
+            sc["events"] = [e for e in events if e[0] != "rewrap" and not (e[0] == "clearfunc2" and e[-1] == "side")]
     return sc
 
 
@@ -552,6 +566,25 @@ def fixed_scenarios(prop):
                     "params": [["a", "pk", None], ["b", "pk", None], ["c", "pk", I(12)], ["d", "ko", I(13)]],
                     "ignore": [], "compress": False, "versions": V, "mode": "own", "events": ev})
     if prop in ("C02", "C06"):
+        # callable arguments: bound classmethods of same-named classes (nested / in two modules), same-named
+        # functions of two modules, builtins, bound methods of module objects, partials -- each its own entry
+        ev = [["define", 0], ["wrap", 0]]
+        for nm in CALLABLE_ARGS + CALLABLE_ARGS[::-1]:
+            cs = {"pos": [{"c": nm}], "kw": []}
+            ev += [["check", 0, cs, True], ["call", 0, cs, True]]
+        out.append({"id": "fixed-callable-arguments", "type": "sig", "callback": False,
+                    "params": [["a", "pk", None], ["b", "pk", I(0)]], "ignore": [], "compress": False,
+                    "versions": {"0": {"tag": "v0", "path": "verifmod.py", "pad": 0, "kind": "def"}}, "events": ev})
+        # a function defined in a notebook cell: the kernel is restarted with pids of 3 ... 8 digits
+        ev = []
+        for n in range(6):
+            ev += [["define", 0], ["wrap", 0], _call(0, [1], kind="check"), _call(0, [1]), _call(0, [1, 2])]
+            if n < 5:
+                ev.append(["newprocess"])
+        out.append({"id": "fixed-ipykernel-restarts", "type": "sig", "callback": False,
+                    "pids": ["123", "1234", "12345", "123456", "1234567", "12345678"],
+                    "params": [["a", "pk", None], ["b", "pk", I(0)]], "ignore": [], "compress": False,
+                    "versions": {"0": {"tag": "v0", "path": "cell.py", "pad": 0, "kind": "ipycell"}}, "events": ev})
         # values equal under == but of different type, through ONE wrapper in one process: every one is its own entry
         ev = [["define", 0], ["wrap", 0]]
         one = [{"i": 1}, {"f": "1.0"}, {"b": True}]
@@ -986,7 +1019,8 @@ def run_scenario(sc, timeout=300):
                 continue
             job = {"cache": cache, "moddir": moddir, "refs": os.path.join(tmp, "refs.pkl"),
                    "scenario": {k: sc[k] for k in ("versions", "params", "ignore", "compress", "verbose", "mmap_mode",
-                                                   "picklable", "callback") if k in sc}, "events": seg}
+                                                   "picklable", "callback", "pids") if k in sc}, "events": seg,
+                   "segment": nseg}
             p = subprocess.run([common.PYNP if sc.get("py") == "np" else common.PY,
                                 os.path.join(common.ROOT, "harness", "impl", "c02_impl.py")],
                                input=json.dumps(job), stdout=subprocess.PIPE, stderr=subprocess.PIPE, text=True,
